@@ -1,8 +1,9 @@
 package rules
 
 import (
-	"strings"
 	"cvcheck/internal/core"
+	"go/token"
+	"strings"
 
 	"golang.org/x/tools/go/ssa"
 )
@@ -116,6 +117,11 @@ func (c *Ctx) noDropRules(rule string) {
 				return ok && (core.CalleeName(&ca.Call) == "strings.Replace" || core.CalleeName(&ca.Call) == "strings.ReplaceAll")
 			})
 			total += c.noDropLoop(rule, fn, "rendering the function", func(in ssa.Instruction) bool {
+				// sb.WriteString(g.FuncToString(f)) or text = text + g.FuncToString(f)
+				if bo, ok := in.(*ssa.BinOp); ok && bo.Op == token.ADD {
+					_, carried := bo.X.(*ssa.Phi)
+					return carried && c.O.Of(bo.Y).IsCallTo("(*"+pGen+"Generator).FuncToString")
+				}
 				ca, ok := in.(*ssa.Call)
 				if !ok || core.CalleeName(&ca.Call) != "(*strings.Builder).WriteString" {
 					return false
@@ -163,7 +169,18 @@ func (c *Ctx) noDropRules(rule string) {
 		old := c.O.Of(a[1])
 		nw := c.O.Of(a[2])
 		cnt := c.O.Of(a[3])
-		ok := old.IsField("model.FunctionsBlock.Marker") && nw.IsCallTo("(*strings.Builder).String") && (cnt.Is("const", "1") || cnt.Is("const", "-1"))
+		// the rendered functions of the block: the builder's content, or a string grown by + FuncToString(f) from ""
+		rendered := nw.IsCallTo("(*strings.Builder).String")
+		if nw.Kind == "phi" && len(nw.Args) == 2 {
+			for i := 0; i < 2; i++ {
+				g := nw.Args[1-i]
+				if nw.Args[i].Is("const", `""`) && g.Kind == "binop" && g.Name == "+" && len(g.Args) == 2 && strings.HasPrefix(g.Args[0].String(), "opaque:cycle") &&
+					g.Args[1].IsCallTo("(*"+pGen+"Generator).FuncToString") {
+					rendered = true
+				}
+			}
+		}
+		ok := old.IsField("model.FunctionsBlock.Marker") && rendered && (cnt.Is("const", "1") || cnt.Is("const", "-1"))
 		r.Check(rule, FnKey(s.Fn)+":replace-operands", c.Pos(s.Pos()), ok, "the marker of the block must be replaced by the rendered functions of that block: Replace(code, block.Marker, sb.String(), 1); got old="+old.String()+" new="+nw.String())
 	}
 }
@@ -230,16 +247,22 @@ func C17(c *Ctx) {
 		r.Check("C17-1", key+":named-or-marked", c.InstrPos(a), d.Implies(named, marked), "an entry can be created for an interface that is neither named Convergen nor marked :convergen on its own doc comment; reach: "+d.Describe(c.O))
 		// no other filter: the literals in reach are only those three tests, the loop bound and the notation-parse error
 		extra := ""
-		for _, cj := range d {
+		known := func(l core.Lit) bool {
+			t, _ := c.Canon(l)
+			p, n := core.Lit{V: l.V, T: l.T}, core.Lit{V: l.V, Neg: true, T: l.T}
+			switch {
+			case isIface(p) || isIface(n), sameFile(p) || sameFile(n), named(p) || named(n), marked(p) || marked(n):
+			case t.Kind == "binop" && t.Name == "<" && t.Args[1].IsCallTo("builtin:len"):
+			case t.Kind == "binop" && t.Name == "==" && (t.Args[0].IsCallTo(fnParseNotation) || t.Args[1].IsCallTo(fnParseNotation)):
+			default:
+				return false
+			}
+			return true
+		}
+		for _, cj := range c.ExpandDNF(d, 2, known) { // tests moved into a predicate helper are read through
 			for _, l := range cj {
-				t, _ := c.Canon(l)
-				switch {
-				case isIface(core.Lit{V: l.V}) || isIface(core.Lit{V: l.V, Neg: true}),
-					sameFile(core.Lit{V: l.V}) || sameFile(core.Lit{V: l.V, Neg: true}),
-					named(core.Lit{V: l.V}) || named(core.Lit{V: l.V, Neg: true}), marked(core.Lit{V: l.V}) || marked(core.Lit{V: l.V, Neg: true}):
-				case t.Kind == "binop" && t.Name == "<" && t.Args[1].IsCallTo("builtin:len"):
-				case t.Kind == "binop" && t.Name == "==" && (t.Args[0].IsCallTo(fnParseNotation) || t.Args[1].IsCallTo(fnParseNotation)):
-				default:
+				if !known(l) {
+					t, _ := c.Canon(l)
 					extra = t.String()
 				}
 			}
